@@ -101,7 +101,7 @@ CHECKS = {
     "C19": dict(
         category="exploration",
         technique="same generator seam as C13 x every date window; every HYPERLINK formula is followed into the sheet and row it names and the unique id found there is compared",
-        text="Two assets sharing spreadsheet row numbers (their row orders run in opposite directions so that late rows of one collide with early rows of the other), unique ids on all rows; B1 = every valid history up to depth 3; depth <= 2: every from-only / to-only window over the dates of interest and from+to pairs (thorough: all pairs, 3 second assets, both row orders), depth 3: from-dates on / after each transaction. For every taxable-event and acquired-lot cell of '<asset> Tax': the link names '<asset> In-Out' and the row holding the same unique id, or the cell carries no link when the window hides the transaction; every Summary cell links to the first shown detail row of that year in that asset's Tax sheet (or carries no link when none is shown). The data of the 9 inputs bundled with RP2 (all asset sheets of a file in one run, up to 41 transactions per sheet, 4 exchanges x 2 holders, exchange-supplied fiat values) x methods x 10 date windows is read back the same way. Also: every timestamp at -05:00 / +09:00 around New Year (own year != UTC year).",
+        text="Two assets sharing spreadsheet row numbers (their row orders run in opposite directions so that late rows of one collide with early rows of the other), unique ids on all rows; B1 = every valid history up to depth 3; depth <= 2: every from-only / to-only window over the dates of interest and from+to pairs (thorough: all pairs; 3 second assets and both row orders for the shortest histories - 72 000 report runs), depth 3: from-dates on / after each transaction. For every taxable-event and acquired-lot cell of '<asset> Tax': the link names '<asset> In-Out' and the row holding the same unique id, or the cell carries no link when the window hides the transaction; every Summary cell links to the first shown detail row of that year in that asset's Tax sheet (or carries no link when none is shown). The data of the 9 inputs bundled with RP2 (all asset sheets of a file in one run, up to 41 transactions per sheet, 4 exchanges x 2 holders, exchange-supplied fiat values) x methods x 10 date windows is read back the same way. Also: every timestamp at -05:00 / +09:00 around New Year (own year != UTC year).",
         note="Identity of a transaction in the report = the unique id printed on its In-Out row.",
         design="3/C19",
     ),
